@@ -279,16 +279,18 @@ struct DC14
 
 // exclude-event form, the getEvent policy derives the event from a LATER argument - one the prototype takes by value and that
 // is movable: the event must be obtained before that argument is handed on (g++ evaluates call arguments right to left)
-struct PolGetEventLaterMov { static std::string getEvent(int, const EvMov & e, int) { return e.name; } typedef eventpp::ArgumentPassingExcludeEvent ArgumentPassingMode; };
+// (the first argument is a string too, so that a library that fails to find this policy and falls back to "the event is the first
+// argument" still compiles and shows its mistake at run time)
+struct PolGetEventLaterMov { static std::string getEvent(const std::string &, const EvMov & e, int) { return e.name; } typedef eventpp::ArgumentPassingExcludeEvent ArgumentPassingMode; };
 struct DC16
 {
 	typedef eventpp::EventDispatcher<std::string, void(EvMov, int), PolGetEventLaterMov> D;
 	static const char * name() { return "ED<std::string,void(EvMov,int)> exclude-event form, getEvent reads the by-value movable SECOND argument"; }
 	static std::string key(int k) { return KS(k); }
 	static void dispatch(D & d, int k, int eid, int val, uint32_t form) {
-		if(form == 0) { int token = 7; EvMov e(KS(k), eid); int v = val; d.dispatch(token, e, v); }
-		else if(form == 1) { const int token = 7; const EvMov e(KS(k), eid); const int v = val; d.dispatch(token, e, v); }
-		else d.dispatch(7, EvMov(KS(k), eid), int(val));
+		if(form == 0) { std::string token("not-the-event"); EvMov e(KS(k), eid); int v = val; d.dispatch(token, e, v); }
+		else if(form == 1) { const std::string token("not-the-event"); const EvMov e(KS(k), eid); const int v = val; d.dispatch(token, e, v); }
+		else d.dispatch(std::string("not-the-event"), EvMov(KS(k), eid), int(val));
 	}
 	static void expect(ArgPack & p, int k, int eid, int val) { p.push(fpOf(KS(k)) * 31 + eid); p.push(val); }
 };
